@@ -106,11 +106,21 @@ class Collector:
         self._cur_trace = None
         self._pending = []
         self.max_depth = 0
+        self.known_matcher = None  # (key, sig) -> id of a listed known finding, or None
+        self.known_counts = collections.Counter()
+        self.known_examples = {}
 
     # driver-facing API
     def violation(self, key, detail=None, sig=None):
         self.n_violations += 1
         self.counters["violation:" + (sig or "unclassified")] += 1
+        if self.known_matcher is not None:
+            kid = self.known_matcher(key, sig or "unclassified")
+            if kid is not None:
+                # a listed known finding: counted apart, so that its repeats can never use up the caps below and hide a new violation
+                self.known_counts[kid] += 1
+                self.known_examples.setdefault(kid, {"key": key, "sig": sig or "unclassified", "trace": list(self._cur_trace.trace)})
+                return
         n_same = sum(1 for v in self.violations if v["sig"] == (sig or "unclassified"))
         if (len(self.violations) < self.max_violations and n_same < 10) or (n_same < 3 and len(self.violations) < 8 * self.max_violations):
             v = {"key": key, "sig": sig or "unclassified", "detail": detail, "trace": list(self._cur_trace.trace)}
@@ -149,6 +159,7 @@ class Collector:
             "counters": dict(self.counters),
             "digests": self.digests,
             "max_depth": self.max_depth,
+            "known_counts": dict(self.known_counts),
         }
 
 
